@@ -21,6 +21,53 @@ FP = z3.Float64()
 RNE = z3.RNE()
 
 
+_qcache = {}
+
+
+def has_quantifier(z):
+    if not z3.is_expr(z):
+        return False
+    key = z.get_id()
+    r = _qcache.get(key)
+    if r is not None:
+        return r
+    if z3.is_quantifier(z):
+        r = True
+    else:
+        r = any(has_quantifier(c) for c in z.children())
+    if len(_qcache) > 200000:
+        _qcache.clear()
+    _qcache[key] = r
+    return r
+
+
+def instantiate(q, bound):
+    """All instances of a (possibly nested-in-conjunction) universally quantified fact at 0..bound-1."""
+    import itertools
+    if z3.is_quantifier(q) and q.is_forall():
+        n = q.num_vars()
+        out = []
+        for combo in itertools.product(range(bound), repeat=n):
+            # de Bruijn: var 0 is the innermost (last) bound variable
+            vals = [z3.IntVal(v) if q.var_sort(n - 1 - k) == z3.IntSort() else None for k, v in enumerate(combo)]
+            if any(v is None for v in vals):
+                return [q]
+            body = z3.substitute_vars(q.body(), *vals)
+            if has_quantifier(body):
+                out.extend(instantiate(body, bound))
+            else:
+                out.append(body)
+        return out
+    if z3.is_and(q):
+        out = []
+        for ch in q.children():
+            out.extend(instantiate(ch, bound))
+        return out
+    if z3.is_implies(q) and not has_quantifier(q.arg(0)):
+        return [z3.Implies(q.arg(0), z3.And(*instantiate(q.arg(1), bound)))]
+    return [q]
+
+
 class PyRaise(Exception):
     """A Python exception raised by the analysed code. `cls` is a class name (str)."""
 
@@ -157,6 +204,8 @@ class Ctx:
         self.solver.set("random_seed", engine.seed)
         self.timeout_ms = timeout_ms
         self.pc = []
+        self.qfacts = []
+        self.seq_lens = []
         self.heap = {}
         self.next_addr = 1
         self.mode = mode
@@ -174,6 +223,7 @@ class Ctx:
         self.solver_time = 0.0
         self.branch_checks = 0
         self.env_stack = []
+        self.assuming = 0
         self.contract_stack = []
 
     # ------------------------------------------------------------------ solver plumbing
@@ -182,7 +232,15 @@ class Ctx:
             if not z:
                 raise Infeasible()
             return
-        self.solver.add(z)
+        if has_quantifier(z):
+            # quantified facts are kept out of the branch-feasibility solver (which would
+            # answer `unknown` on satisfiable quantified formulas); they are used when
+            # obligations are discharged.  Exploring a path that only the quantified facts
+            # make infeasible is sound: its obligations are then vacuously valid.
+            self.qfacts.append(z)
+            self.qstack_mark = len(self.qfacts)
+        else:
+            self.solver.add(z)
         self.pc.append(z)
         if self.assume_log:
             self.assume_log[-1].append(z)
@@ -267,23 +325,63 @@ class Ctx:
                 return
             goal = z3.BoolVal(False)
         t0 = time.time()
-        self.solver.push()
-        self.solver.add(z3.Not(goal))
-        r = self.solver.check()
-        model = None
-        backend = "z3"
-        if r == z3.sat:
-            status = "refuted"
-            model = self.engine.extract_model(self, self.solver.model())
-        elif r == z3.unsat:
-            status = "valid"
-        else:
-            status, model, backend = self.engine.second_opinion(self, self.solver)
-        self.solver.pop()
+        status, model, backend = self.discharge(goal)
         dt = time.time() - t0
         self.solver_time += dt
         self.obligations.append(Obligation(name, self.function, path, status, model, dt, backend,
                                            detail=detail, kind=kind))
+
+    def discharge(self, goal):
+        """valid / refuted(model) / unknown for `path condition => goal`."""
+        s = self.solver
+        quick = 1500 if self.qfacts else self.timeout_ms
+        s.push()
+        try:
+            for q in self.qfacts:
+                s.add(q)
+            s.add(z3.Not(goal))
+            s.set("timeout", quick)
+            r = s.check()
+            if r == z3.unsat:
+                return "valid", None, "z3"
+            if r == z3.sat:
+                return "refuted", self.engine.extract_model(self, s.model()), "z3"
+        finally:
+            s.set("timeout", self.timeout_ms)
+            s.pop()
+        # unknown.  With quantified facts, satisfiable queries rarely terminate: look for a
+        # genuine counterexample among small instances (all sequences of length <= K and every
+        # quantified fact instantiated at all indices 0..K-1; such a model satisfies the facts).
+        if self.qfacts:
+            for bound in (2, 4):
+                s.push()
+                try:
+                    s.add(z3.Not(goal))
+                    for ln in self.seq_lens:
+                        s.add(ln <= bound)
+                    for q in self.qfacts:
+                        for inst in instantiate(q, bound):
+                            s.add(inst)
+                    r = s.check()
+                    if r == z3.sat:
+                        return "refuted", self.engine.extract_model(self, s.model()), f"z3 (instances, len<={bound})"
+                finally:
+                    s.pop()
+        s.push()
+        try:
+            for q in self.qfacts:
+                s.add(q)
+            s.add(z3.Not(goal))
+            s.set("timeout", max(self.timeout_ms, 20000))
+            r = s.check()
+            if r == z3.unsat:
+                return "valid", None, "z3"
+            if r == z3.sat:
+                return "refuted", self.engine.extract_model(self, s.model()), "z3"
+            return self.engine.second_opinion(self, s)
+        finally:
+            s.set("timeout", self.timeout_ms)
+            s.pop()
 
     # ------------------------------------------------------------------ heap
     def alloc(self, hobj):
